@@ -508,11 +508,19 @@ impl ErasedList {
     ) -> (MutexGuard<'a, RawList>, MutexGuard<'a, RawList>) {
         debug_assert!(!Arc::ptr_eq(&self.0, &other.0));
         if Arc::as_ptr(&self.0) < Arc::as_ptr(&other.0) {
+            #[cfg(feature = "verif-hooks")]
+            crate::verif::before_list_lock(&self.0);
             let a = self.0.lock().unwrap();
+            #[cfg(feature = "verif-hooks")]
+            crate::verif::before_list_lock(&other.0);
             let b = other.0.lock().unwrap();
             (a, b)
         } else {
+            #[cfg(feature = "verif-hooks")]
+            crate::verif::before_list_lock(&other.0);
             let b = other.0.lock().unwrap();
+            #[cfg(feature = "verif-hooks")]
+            crate::verif::before_list_lock(&self.0);
             let a = self.0.lock().unwrap();
             (a, b)
         }
@@ -545,9 +553,13 @@ impl ErasedList {
         // time. We cannot lock the same mutex twice, hence the special case
         // for self == other.
         if Arc::ptr_eq(&self.0, &other.0) {
+            #[cfg(feature = "verif-hooks")]
+            crate::verif::before_list_lock(&self.0);
             let a = self.0.lock().unwrap();
 
             let new = Self::new(a.vtable.clone());
+            #[cfg(feature = "verif-hooks")]
+            crate::verif::before_list_lock(&new.0);
             let mut raw = new.0.lock().unwrap();
 
             // SAFETY: self and other have the same element type
@@ -564,6 +576,8 @@ impl ErasedList {
         let (a, b) = self.lock_both(other);
 
         let new = Self::new(a.vtable.clone());
+        #[cfg(feature = "verif-hooks")]
+        crate::verif::before_list_lock(&new.0);
         let mut raw = new.0.lock().unwrap();
 
         // SAFETY: self and other have the same element type
